@@ -6,20 +6,40 @@ use crate::util::*;
 use scpi::error::Error;
 use scpi::parser::tokenizer::{Token, Tokenizer};
 use scpi_contrib::scpi1999::{NumericValue, NumericValueDefaults};
+use scpi_contrib::scpi1999::NumericBuilder;
 use scpi::units::uom::si::{f32::{Frequency, Time}, frequency::hertz, time::second};
 
 fn go<'a, T>(tok: Token<'a>, ops: &str, parse: impl Fn(&str) -> T, show: impl Fn(&T) -> String) -> String
 where T: TryFrom<Token<'a>, Error = Error> + PartialOrd + NumericValueDefaults + Copy {
-    let nv = match NumericValue::<T>::try_from(tok) { Ok(v) => v, Err(e) => return format!("{} -", show_error(&e)) };
+    let nv = match NumericValue::<T>::try_from(tok.clone()) { Ok(v) => v, Err(e) => return format!("{} -", show_error(&e)) };
     let var = match &nv { NumericValue::Value(t) => format!("V{}", show(t)), NumericValue::Maximum => "MAX".into(), NumericValue::Minimum => "MIN".into(),
                           NumericValue::Default => "DEF".into(), NumericValue::Up => "UP".into(), NumericValue::Down => "DOWN".into() };
     let mut b = nv.build();
+    let (mut lmax, mut lmin) = (None, None);
     for o in ops.split(',') {
         if o.is_empty() || o == "-" { continue; }
         let (k, v) = o.split_at(1);
-        b = match k { "M" => b.max(parse(v)), "m" => b.min(parse(v)), "d" => b.default(parse(v)), _ => panic!("bad op") };
+        b = match k { "M" => { lmax = Some(parse(v)); b.max(parse(v)) }, "m" => { lmin = Some(parse(v)); b.min(parse(v)) },
+                      "d" => b.default(parse(v)), _ => panic!("bad op") };
     }
-    match b.finish() { Ok(t) => format!("{} {}", var, show(&t)), Err(e) => format!("{} {}", var, show_error(&e)) }
+    let showr = |r: scpi::error::Result<T>| match r { Ok(t) => show(&t), Err(e) => show_error(&e) };
+    // the other public entry points to the same resolution must agree with the builder chain
+    let mut note = String::new();
+    if let (Some(mx), Some(mn)) = (lmax, lmin) {
+        let again = |tk: Token<'a>| NumericValue::<T>::try_from(tk).ok();
+        if let (Some(n0), Some(n1), Some(n2)) = (again(tok.clone()), again(tok.clone()), again(tok.clone())) {
+            let r0 = showr(n0.build().max(mx).min(mn).finish());
+            let r1 = showr(n1.finish_with(mx, mn));
+            let r2 = showr(NumericBuilder::new(n2, mx, mn).finish());
+            if r1 != r0 { note.push_str(&format!(" FINISH_WITH-DIFFERS[{}]", r1)); }
+            if r2 != r0 { note.push_str(&format!(" BUILDER_NEW-DIFFERS[{}]", r2)); }
+        }
+    }
+    // NumericValue::value(): Some exactly for a plain value
+    if let Some(n3) = NumericValue::<T>::try_from(tok.clone()).ok() {
+        if n3.value().is_some() != var.starts_with('V') { note.push_str(" VALUE()-DIFFERS"); }
+    }
+    format!("{} {}{}", var, showr(b.finish()), note)
 }
 
 pub fn run(args: &[&str]) -> String {
